@@ -119,6 +119,7 @@ type FnCtx struct {
 	nfresh      int
 	nquant      int
 	atCallSeen  map[*AtCall]bool
+	cellClosure map[string]*Closure // cell reference -> the one closure ever stored in it
 	inFieldInv   bool
 	fieldInvDone map[string]bool
 	base        map[string]Term
@@ -455,6 +456,7 @@ type frame struct {
 type privCell struct {
 	ref   Term
 	elemT types.Type
+	alloc *ssa.Alloc
 }
 
 func privateCell(a *ssa.Alloc) bool {
